@@ -79,7 +79,11 @@ def main():
       out = {"obs": [sha(pyi), sha(json.dumps(errs)), pk], "errs": errs, "nraw": len(raw),
              "pyi": pyi}
     except Exception as e:  # pylint: disable=broad-except
-      out = {"obs": ["exc:" + type(e).__name__, sha(str(e)), ""], "errs": [], "nraw": 0, "pyi": ""}
+      # an escaped exception (C15's subject) yields no stub, no error report and no pickle: the
+      # observation is "crashed with this exception type"; the text of the internal error is not an
+      # output of the analysis (it may print internal names); it is returned for the log only
+      out = {"obs": ["exc:" + type(e).__name__, "", ""], "errs": [], "nraw": 0, "pyi": "",
+             "excmsg": str(e)[:300]}
     out["cpu"] = round(time.process_time() - t0, 3)
     t0 = time.process_time()
     sys.stdout.write(json.dumps(out) + "\n")
